@@ -429,6 +429,36 @@ def replaceOperator (ops : List O) (old new : O) : Option (List O) :=
 
 end Protocols
 
+/-! ### `Run` in append mode (add validators) and in keymanager mode -/
+
+section AppendMode
+variable {PK SK Sig : Type}
+
+/-- `Run`, append mode: `allShares := slices.Concat(existingShares, shares)` is what `writeKeysToDisk`
+writes (and what signs the lock hash): the shares of the existing validators FIRST, then the new ones. -/
+def appendKeyShares (existing new : List (Share PK SK)) : List (Share PK SK) := existing ++ new
+
+/-- `signAndAggLockHash`, append mode: `vals = append(appendConfig.ClusterLock.Validators, vals...)`. -/
+def appendLockValidators (oldVals newVals : List (DistValidator PK Sig)) : List (DistValidator PK Sig) :=
+  oldVals ++ newVals
+
+end AppendMode
+
+/-- `writeKeysToKeymanager`: ONE `ImportKeystores` request; its error is the function's error.
+`responses` is what the keymanager would answer to successive requests (`true` = 2xx). -/
+def writeKeysToKeymanager (responses : List Bool) : Bool :=
+  match responses with
+  | r :: _ => r
+  | [] => false
+
+/-- the key-writing step of `Run` on one node: keymanager mode imports (nothing goes to disk), else
+`writeKeysToDisk`; `Run` returns an error iff the step fails. -/
+def runWritesKeys (keymanagerMode : Bool) (responses : List Bool) (diskOk : Bool) : Bool :=
+  if keymanagerMode then writeKeysToKeymanager responses else diskOk
+
+/-- a ceremony succeeds iff `Run` succeeds on every node. -/
+def ceremonyOk (nodes : List Bool) : Bool := nodes.all id
+
 /-- `checkThreshold`. -/
 def checkThreshold (threshold numOperators : Nat) : Bool :=
   !(threshold < 2) && !(threshold > numOperators)
